@@ -6,7 +6,7 @@ WT=/tmp/seedruns/wt_${ID}_${K}
 rm -rf $WT; git -C /repo worktree prune
 git -C /repo worktree add -q --detach $WT HEAD || exit 2
 rsync -a --include='*/' --include='*.so' --exclude='*' /repo/TidalPy/ $WT/TidalPy/
-cd $WT
+cd $WT; HEAD0=$(git rev-parse --short HEAD)
 PYTHONPATH=$WT /venv/bin/python $D/demo.py > $D/demo_clean.log 2>&1; CLEAN=$?
 git apply $D/patch.diff || { echo "patch does not apply"; exit 3; }
 PYTHONPATH=$WT /venv/bin/python $D/demo.py > $D/demo_mut.log 2>&1; MUT=$?
@@ -15,5 +15,5 @@ TAIL=$(tail -1 $D/tests_mut.log)
 FAILED=$(grep -c "^FAILED" $D/tests_mut.log)
 FAILNAMES=$(grep "^FAILED" $D/tests_mut.log | tr '\n' ';')
 cd /; git -C /repo worktree remove --force $WT
-echo "{\"id\": \"$ID\", \"k\": $K, \"demo_clean_rc\": $CLEAN, \"demo_mutated_rc\": $MUT, \"tests_tail\": \"$TAIL\", \"failed_tests\": \"$FAILNAMES\", \"repo_head\": \"$(git -C /repo rev-parse --short HEAD)\"}" > $D/confirm.json
+echo "{\"id\": \"$ID\", \"k\": $K, \"demo_clean_rc\": $CLEAN, \"demo_mutated_rc\": $MUT, \"tests_tail\": \"$TAIL\", \"failed_tests\": \"$FAILNAMES\", \"repo_head\": \"$HEAD0\"}" > $D/confirm.json
 cat $D/confirm.json
